@@ -8,7 +8,7 @@ use crate::{for_both, hx, Ctx, Tier};
 use blsful::*;
 use serde_json::json;
 
-pub const RULE: &str = "grid: edge scalars E (1,2,3,r-1,r-2,2^254,2^255-19 mod r,(r-1)/2,hash-derived,random, plus 9 keys whose compressed public key ends with NUL/LF/CR/space/quote/backslash/DEL/0x80/0xff) x message length classes (+ 160 / 208 where pk||msg is 256 bytes; thorough 159..161, 207..209) x contents (random; all-zero, all-0xff, counter at lengths 1,32,33,128,257 in the quick tier, everywhere in the thorough tier) x 3 schemes x 2 group assignments, plus seeded random (key,len<=1024) cases in the thorough tier. Per case: sign twice (determinism), sign with the same scalar under the OTHER group assignment in between and sign again (history independence), verify, reference CoreVerify on the same bytes, then sk through {be,le,Vec,serde_bare,serde_json} and through the curve-tagged SecretKeyEnum's {be,le,Vec,serde_bare,serde_json} must re-sign to the same bytes and sig' x pk' through {bytes,serde_bare,serde_json}^2 must verify. History clusters (4 quick / 24 thorough per group assignment): the 18 questions {sign, verify} x 3 schemes x 2 group assignments + proof of possession {prove, verify with own key, verify with another key} x 2 over one (key, message) are asked in every ordered pair (a,b) as the sequence a,b,b,a and every answer must equal the reference's (answers may depend on the arguments only, not on what was asked before). A case is distinct by (suite,scheme,sk,msg); non-trivial = signing succeeded and the pairing check was evaluated by both library and reference.";
+pub const RULE: &str = "grid: edge scalars E (1,2,3,r-1,r-2,2^254,2^255-19 mod r,(r-1)/2,hash-derived,random, plus keys at magnitude boundaries (2^32, 2^64-1, 2^64, 2^128-1, 2^248, 3*2^248, 0x73*2^248 in the quick tier; 2^k-1, 2^k, 2^k+1 for 17 values of k in the thorough tier), plus 9 keys whose compressed public key ends with NUL/LF/CR/space/quote/backslash/DEL/0x80/0xff) x message length classes (+ 160 / 208 where pk||msg is 256 bytes; thorough 159..161, 207..209) x contents (random; all-zero, all-0xff, counter at lengths 1,32,33,128,257 in the quick tier, everywhere in the thorough tier) x 3 schemes x 2 group assignments, plus seeded random (key,len<=1024) cases in the thorough tier. Per case: sign twice (determinism), sign with the same scalar under the OTHER group assignment in between and sign again (history independence), verify, reference CoreVerify on the same bytes, then sk through {be,le,Vec,serde_bare,serde_json} and through the curve-tagged SecretKeyEnum's {be,le,Vec,serde_bare,serde_json} must re-sign to the same bytes and sig' x pk' through {bytes,serde_bare,serde_json}^2 must verify. History clusters (4 quick / 24 thorough per group assignment): the 18 questions {sign, verify} x 3 schemes x 2 group assignments + proof of possession {prove, verify with own key, verify with another key} x 2 over one (key, message) are asked in every ordered pair (a,b) as the sequence a,b,b,a and every answer must equal the reference's (answers may depend on the arguments only, not on what was asked before). A case is distinct by (suite,scheme,sk,msg); non-trivial = signing succeeded and the pairing check was evaluated by both library and reference.";
 
 pub fn run(ctx: &mut Ctx) {
     for_both!(run_suite, ctx);
@@ -31,6 +31,16 @@ fn run_suite<C: Suite>(ctx: &mut Ctx) {
     // specially (NUL, LF, CR, space, quote, backslash, DEL, 0x80, 0xff)
     for (_b, k) in crate::codec::keys_with_special_pk_tail::<C>() {
         edges.push(("pk-ends-with-special-byte", k));
+    }
+    // keys at word / limb / byte-pattern boundaries (2^k-1, 2^k, 2^k+1; only the top byte set)
+    {
+        let mags = gen::magnitude_scalars();
+        let quick = ["2^32", "u64::MAX", "2^64", "2^128-1", "2^248", "3*2^248", "0x73*2^248"];
+        for (name, k) in mags {
+            if ctx.tier == Tier::Thorough || quick.contains(&name.as_str()) {
+                edges.push(("magnitude-boundary", k));
+            }
+        }
     }
     let contents: &[Content] = &CONTENTS[..];
     // quick: structured contents (all-zero, all-0xff, counter) only at a few lengths
